@@ -180,6 +180,11 @@ def kgen():
                         os.path.join(gen_dir, 'Base64Leaf.lean')], capture_output=True, text=True)
     if p.returncode != 0:
         problems.append('K-gen leaf translator: ' + (p.stdout + p.stderr).strip()[-500:])
+    ht = os.path.join(VERIF, 'gen', 'hdrtables.py')
+    if os.path.exists(ht):
+        p = subprocess.run([sys.executable, ht, REPO, os.path.join(gen_dir, 'HeaderTables.lean')], capture_output=True, text=True)
+        if p.returncode != 0:
+            problems.append('K-gen header tables: ' + (p.stdout + p.stderr).strip()[-800:])
     td = os.path.join(VERIF, 'gen', 'tables.py')
     if os.path.exists(td):
         p = subprocess.run([sys.executable, td, REPO, os.path.join(gen_dir, 'Tables.lean')], capture_output=True, text=True)
@@ -484,6 +489,7 @@ def kdiff(res, lean, impl_bin, lines, oracle=None, classify=None, unspecified=No
             res.samples.append({'op': line[:300], 'impl': io[:300]})
         kind = io.split(' ', 1)[0]
         if len(kind) > 6 and re.fullmatch(r'[0-9a-f]+', kind): kind = 'hex'
+        if '=' in kind: kind = kind.split('=')[0] + '='
         res.count(tag + 'out:' + kind[:24])
         if classify:
             c = classify(line, io)
